@@ -1,11 +1,55 @@
 //! hx_c11: write / append / overwrite / read returns exactly the rows written (C11).
+//!
+//! Streams (model = coq/theories/Table/Model_Write.v, evaluated by coqc):
+//!   frags  write_fragments_internal + do_write_fragments (file rolling) through execute_uncommitted_stream
+//!   bm     Transaction::build_manifest, Append / Overwrite arms, through the verif hook
+//!   hist   whole histories through Dataset::write / append / InsertBuilder on temp-dir tables
+//! Direct oracles: ordered scan == rows written since the last overwrite, count_rows, fragment shape,
+//! failed calls leave the table unchanged.
+//!
+//! Declared domain of the generated e2e DATA (the write path itself is unrestricted): values whose
+//! file-level round trip is known to fail are left to the properties that own the file format -
+//!   * 2.1 / 2.2: no null items inside lists, no List<List<..>> (C27's rep/def finding classes),
+//!     variable-width values < 256 bytes (full-zip decode, C25/C26);
+//!   * 0.1: one dictionary per dictionary column for the whole table, no empty string / binary values.
+//! The two legacy restrictions are exercised on purpose by the `known` arm (finding classes of C11).
+mod common;
+mod e2e;
 mod gen;
+mod known;
 mod probe;
+mod unit;
+
+use hxlib::util::{Args, Rng, Sink};
+
+fn run(args: &Args) -> i32 {
+    let mut sink = Sink::new("C11", &args.out);
+    let mut rng = Rng::new(args.seed);
+    let rt = common::runtime();
+    if std::env::var("C11_LOUD").is_err() {
+        common::quiet_panics();
+    }
+    unit::run_frags(args, &mut sink, &mut rng, &rt);
+    unit::run_bm(args, &mut sink, &mut rng);
+    known::run(args, &mut sink, &mut rng, &rt);
+    e2e::run(args, &mut sink, &mut rng, &rt);
+    sink.notes.push(
+        "frags: fixed boundary cases + random size lists (0, 1, max-1, max, max+1, 2max, 3max-1, group, group+1, reader errors) x {0.1,2.0,2.1,2.2} x max_rows_per_file x max_rows_per_group x byte limit {default, 1 (legacy), 1 MiB with >8 MiB first batch (2.x)}; \
+         bm: hand-made manifests incl. unsorted/duplicate/zero/pre-assigned ids, stale or missing max_fragment_id, u32/u64 edges; \
+         hist: random histories (1-5 calls; create/append/overwrite, create-over-existing, failing readers) over 34 column kinds, sliced/empty/all-null batches"
+            .into(),
+    );
+    sink.finish();
+    0
+}
 
 fn main() {
-    let (sub, args) = hxlib::util::Args::parse();
+    let (sub, args) = Args::parse();
     let code = match sub.as_str() {
+        "c11" => run(&args),
         "probe" => probe::run(&args),
+        "probe-overwrite" => probe::run_overwrite(&args),
+        "probe-legacy" => probe::run_legacy(&args),
         _ => {
             eprintln!("unknown subcommand {sub}");
             2
